@@ -2,7 +2,7 @@
 from p_tokens import C16
 from p_router import C17
 from p_response import C05, C06
-from p_conn import C01
+from p_conn import C01, C04, C11, C12, C13
 
 REGISTRY = {
     'C16': C16,
@@ -10,4 +10,8 @@ REGISTRY = {
     'C05': C05,
     'C06': C06,
     'C01': C01,
+    'C04': C04,
+    'C11': C11,
+    'C12': C12,
+    'C13': C13,
 }
